@@ -557,11 +557,13 @@ loopbreak:
 	L.Push(LString(name))
 	L.Call(1, 1)
 	ret := L.reg.Pop()
-	modv := L.GetField(loaded, name)
-	if ret != LNil && modv == loopdetection {
+	if ret != LNil {
+		// a non-nil result of the loader becomes package.loaded[name],
+		// also when the loader assigned that entry itself
 		L.SetField(loaded, name, ret)
-		L.Push(ret)
-	} else if modv == loopdetection {
+	}
+	modv := L.GetField(loaded, name)
+	if modv == loopdetection {
 		L.SetField(loaded, name, LTrue)
 		L.Push(LTrue)
 	} else {
